@@ -608,3 +608,39 @@ def rule_x8(P, tables):
             findings.append(F("X8", f"X8|{norm_fn(fn)}", f"{fn} reads or parses input ({io[:2]}) on the main thread after the source was constructed (path: {' -> '.join(x.split('::', 1)[-1] for x in P.path_to(par, fn)[-4:])}): a malformed file makes it panic outside catch_unwind and kills the process instead of producing a reported error; do this inside a job's exec or while constructing the source",
                               P.body_file_line(fn)))
     return findings, obl, {"main_thread_io_functions": n}
+
+
+# ---------------------------------------------------------------------------------------------- X9 thread creation confined to the scheduler
+_SPAWN = _re.compile(
+    r"^(std::thread::(\w+::)*(spawn|scope|spawn_scoped|spawn_unchecked)$"
+    r"|std::thread::\w+::\{impl#\d+\}::(spawn|spawn_scoped|spawn_unchecked)$"
+    r"|rayon(_core)?::(spawn|scope|join|broadcast|in_place_scope)"
+    r"|rayon_core::\w+::\{impl#\d+\}::(spawn|in_place_scope|scope|install)$"
+    r"|rayon_core::\{impl#\d+\}::build$"
+    r"|rayon::iter::)")
+
+
+def is_spawn(t):
+    return bool(_SPAWN.search(t))
+
+
+def rule_x9(P, reach):
+    """A panic is contained only on the threads the scheduler starts (each job body runs inside catch_unwind there).
+    Work handed to any other thread or rayon scope escapes that containment, so thread creation is confined to Workload::exec."""
+    findings, obl = [], []
+    n = 0
+    for fn in sorted(reach):
+        if fn not in P.bodies:
+            continue
+        hits = sorted({t for s in P.iter_sites(fn) if s["kind"] in ("call", "fnref") for t in s["targets"] if is_spawn(t)})
+        if not hits:
+            continue
+        n += 1
+        root = P.bodies[fn].get("root") or fn
+        ok = root in ("fontc::workload::{impl#0}::exec",) or fn.startswith("fontc::norayon::")
+        obl.append({"rule": "X9", "inst": f"{fn} creates threads / parallel scopes ({hits[0]})", "ok": ok})
+        if not ok:
+            findings.append(F("X9", f"X9|{root}", f"{fn} starts a thread or a rayon scope/iterator ({hits[:2]}) outside Workload::exec: a panic on that thread is not converted into Error::Panic by the scheduler's catch_unwind (it aborts the scope or is lost), and its result order depends on scheduling", P.body_file_line(fn)))
+    if n < 1:
+        raise E4Error("X9: the scheduler's own spawn sites were not found")
+    return findings, obl, {"thread_creation_sites": n}
